@@ -334,6 +334,8 @@ pub fn c09(tier: &str, seed: u64) -> i32 {
     if thorough {
         key_lens.extend((2097152 - 12)..=(2097152 + 2));
     }
+    // lengths that put the trailing offset fields of the swept record across the 128 KiB buffer-chunk mark
+    key_lens.extend(130_848..=130_872);
     let mut jobs: Vec<Vec<u8>> = Vec::new();
     let mut mk = |is_key: bool, lens: &[u64], per: usize| {
         for c in lens.chunks(per) {
